@@ -44,6 +44,15 @@ checks = [
  ("C21", "exhaustive exploration of notation pairs x method shapes x argument tuples: the same declaration written in both notations, every call analysed under both configurations",
   "For every notation pair of the property a generated class declares the method in notation A and in notation B (class and instance method; alone / after a required Int / before a trailing String); every argument tuple up to length 2 (quick) / 3 (thorough) over seven literal kinds and the --suggest rendering must give identical output under both configurations.",
   TRUST),
+ ("C04", "bounded-exhaustive enumeration of (program, row, editor mode) triples on the real code with crash/hang detection and output-grammar oracle; candidates confirmed on the unmodified binary",
+  "Every corpus and generated program x every row 0..lines+2 x {--suggest, --hover, --define}, plus line-boundary prefixes and cursor-after-dot variants (file cut after an identifier/)/] with `.` appended, with/without the remainder) at rows cursor-1..cursor+1: exit status 0, no panic, no hang, every line a %/@/$ record or a diagnostic of the target file.",
+  TRUST),
+ ("C11", "metamorphic bounded-exhaustive exploration: every admissible statement boundary of every host x every fragment, and ordered pairs of independent programs; real code, records outside the fragment compared after the row shift",
+  "11 self-contained fragments over fresh names (conditionals, nested conditionals, case/in, blocks, array-literal statement, builtin calls on unions, hash merge, push, loop) are inserted at every statement boundary that is not directly before a block closer / branch keyword / end of file (quick: 4 fragments everywhere, all fragments on the 150 smallest hosts and on generated hosts); whole independent programs are appended pairwise.",
+  TRUST + " Boundaries come from the harness's line scanner. An erroneous fragment is not used: ti stops checking a body after its first error, which the statement does not rule out (DESIGN.md section 11)."),
+ ("C27", "exhaustive exploration of class-group x wrapper x decoy placements, real code, records compared after removing the qualification prefix and mapping rows",
+  "Six class groups (single class, inheritance, mixin, private section, initialize arity, class-method chain) are analysed at top level and wrapped in one / two nested modules with outside references qualified, each alone and next to a same-named decoy class (top level before/after the wrapped group, or inside another module); the group's and its uses' records must be those of the top-level reference.",
+  TRUST),
 ]
 m = {
  "version": 1,
